@@ -18,7 +18,7 @@ class C09(C01):
     extra_bins = ("c09port", "c09http")
     technique = "Coq proof: classification total, monitor never reaches the internal-error path, TID non-interference; extracted-model correspondence"
     rule = ("transfer part: every datagram of length <= 4 (quick) / 5 (thorough) over {0,1,2,3,4,5,6,8,9,0x61,0xff} injected from "
-            "the peer and from a foreign address at three points of a transfer (OACK outstanding, first block outstanding, last "
+            "the peer and from foreign addresses (other port, other host, and source port 0 whose ERROR 5 reply cannot be sent) at three points of a transfer (OACK outstanding, first block outstanding, last "
             "block outstanding); grammar-generated and mutated ACK/ERROR packets; 512..600 byte packets; non-trivial = injected "
             "datagram is not a matching ACK; distinct by (datagram, sender, point)")
 
